@@ -536,6 +536,25 @@ theorem squeeze_eq_blocks (r : Nat) (hr : 0 < r) :
           unfold permuteIfNeeded; simp
         rw [hperm, ih (n - r) fuel (f st) (by omega) (by omega)]
 
+theorem squeezeBlocks_length_le (r : Nat) :
+    ∀ (fuel : Nat) (st : Bytes) (n : Nat), (squeezeBlocks f r fuel st n).length ≤ n := by
+  intro fuel
+  induction fuel with
+  | zero => intro st n; simp [squeezeBlocks]
+  | succ fuel ih =>
+    intro st n
+    unfold squeezeBlocks
+    split
+    · exact List.length_take_le _ _
+    · rw [List.length_append]
+      have h1 := List.length_take_le r st
+      have h2 := ih (f st) (n - r)
+      omega
+
+theorem sponge_length_le (r : Nat) (dom : UInt8) (msg : Bytes) (n : Nat) :
+    (sponge f r dom msg n).length ≤ n := by
+  unfold sponge; exact squeezeBlocks_length_le f r _ _ _
+
 /-- absorb, pad, squeeze through the C API = the sponge construction -/
 theorem hash_eq_sponge (r : Nat) (hr : 0 < r) (dom : UInt8) (msg : Bytes) (n : Nat) :
     (squeeze f (pad f (absorb f { st := List.replicate 200 0, pos := 0, rbytes := r } msg) [dom]) n).1
